@@ -139,3 +139,5 @@ package block
 //@   ensures[C11] err != nil ==> len(b.entries) == old(len(b.entries))
 //@   ensures[C11] err == nil ==> len(b.entries) == old(len(b.entries)) + 1 && bstr(b.entries[len(b.entries)-1].Key) == bstr(key) && len(b.entries[len(b.entries)-1].Key) == len(key) && b.entries[len(b.entries)-1].SequenceNum == seqNum && bstr(b.lastKey) == bstr(key)
 //@   ensures[C11] err == nil ==> (b.entries[len(b.entries)-1].Value == nil) == (value == nil) && bstr(b.entries[len(b.entries)-1].Value) == bstr(value) && len(b.entries[len(b.entries)-1].Value) == len(value)
+//@ func NewBuilder
+//@   ensures[C11] result != nil && fresh(result) && len(result.entries) == 0
